@@ -120,6 +120,7 @@ def run(ck):
     for o in ck.obs:
         analysed.add(o["func"].split(" [")[0])
     found = TG.discover(P)
+    from ..report import UNKNOWN as _UNK
     n = 0
     for short in found:
         if short in TG.NOT_DECODERS:
@@ -132,6 +133,12 @@ def run(ck):
             # an entry point the catalogue does not know (a new public helper): analysed generically - the octet string and
             # every other parameter symbolic - with the same read / escape rules; only if that is not possible is the run
             # incomplete
+            group_failed = [o for o in ck.obs if o.get("status") == _UNK and "target group analysed" in str(o.get("construct", "")) + str(o.get("what", ""))]
+            if group_failed or any(o.get("rule") == "ENGINE" for o in ck.obs):
+                # a catalogued group could not be analysed: this entry point may well be one of its members, with its own
+                # documented classes - nothing is decided about it here
+                ck.unknown("D-TABLE", short, "public decoder is catalogued and was analysed", "no analysis target covered this entry point in this run (a target group could not be analysed)")
+                continue
             try:
                 f = P.func(short)
                 it = TG.new_interp(P); env = TG.Env()
@@ -147,7 +154,15 @@ def run(ck):
                     raise Unsupported("instance method")
                 it.call_func(f, [], kwargs, env)
                 fnn = f"{short} [generic]"
-                D.check_escape(ck, it, fnn, allowed=("ValueError",))
+                # every class some catalogued decoder documents (the generic run cannot know which apply to a new helper)
+                docs = ["ValueError"]
+                for qn in ("cfdp.exceptions.InvalidCrc", "cfdp.defs.UnsupportedCfdpVersion", "cfdp.exceptions.TlvTypeMissmatch", "ecss.tc.InvalidTcCrc16", "ecss.tm.InvalidTmCrc16"):
+                    try:
+                        docs.append(P.cls(qn).qual)
+                    except Exception:  # noqa: BLE001
+                        pass
+                docs += [q_ for q_ in P.classes if q_.startswith("spacepackets.uslp.") and P.is_exception(q_)]
+                D.check_escape(ck, it, fnn, allowed=tuple(docs))
                 D.check_xbuf(ck, it, fnn)
                 ck.proved("D-TABLE", short, "public decoder is catalogued and was analysed", "not in the catalogue: analysed generically (all parameters symbolic)", nontrivial=False)
             except Unsupported as e:
